@@ -91,7 +91,7 @@ func (udc *UpsideDownCouch) init(kvwriter store.KVWriter) (err error) {
 		{NewVersionRow(udc.version)},
 	}
 
-	err = udc.batchRows(kvwriter, nil, rowsAll, nil)
+	err = udc.batchRows(kvwriter, nil, rowsAll, nil, 0, 0)
 	return
 }
 
@@ -153,7 +153,7 @@ func PutRowBuffer(rb *rowBuffer) {
 	rowBufferPool.Put(rb)
 }
 
-func (udc *UpsideDownCouch) batchRows(writer store.KVWriter, addRowsAll [][]UpsideDownCouchRow, updateRowsAll [][]UpsideDownCouchRow, deleteRowsAll [][]UpsideDownCouchRow) (err error) {
+func (udc *UpsideDownCouch) batchRows(writer store.KVWriter, addRowsAll [][]UpsideDownCouchRow, updateRowsAll [][]UpsideDownCouchRow, deleteRowsAll [][]UpsideDownCouchRow, docsAdded, docsDeleted uint64) (err error) {
 	dictionaryDeltas := make(map[string]int64)
 
 	// count up bytes needed for buffering.
@@ -294,8 +294,16 @@ func (udc *UpsideDownCouch) batchRows(writer store.KVWriter, addRowsAll [][]Upsi
 		buf = buf[dictRowKeyLen+DictionaryRowMaxValueSize:]
 	}
 
-	// write out the batch
-	return writer.ExecuteBatch(wb)
+	// write out the batch; the doc count changes together with the store,
+	// so that Reader() gets a count that matches its store snapshot
+	udc.m.Lock()
+	defer udc.m.Unlock()
+	err = writer.ExecuteBatch(wb)
+	if err == nil {
+		udc.docCount += docsAdded
+		udc.docCount -= docsDeleted
+	}
+	return err
 }
 
 func (udc *UpsideDownCouch) Open() (err error) {
@@ -493,12 +501,11 @@ func (udc *UpsideDownCouch) UpdateWithAnalysis(doc index.Document,
 		deleteRowsAll = append(deleteRowsAll, deleteRows)
 	}
 
-	err = udc.batchRows(kvwriter, addRowsAll, updateRowsAll, deleteRowsAll)
-	if err == nil && backIndexRow == nil {
-		udc.m.Lock()
-		udc.docCount++
-		udc.m.Unlock()
+	var docsAdded uint64
+	if backIndexRow == nil {
+		docsAdded = 1
 	}
+	err = udc.batchRows(kvwriter, addRowsAll, updateRowsAll, deleteRowsAll, docsAdded, 0)
 	atomic.AddUint64(&udc.stats.indexTime, uint64(time.Since(indexStart)))
 	if err == nil {
 		atomic.AddUint64(&udc.stats.updates, 1)
@@ -686,12 +693,7 @@ func (udc *UpsideDownCouch) Delete(id string) (err error) {
 		deleteRowsAll = append(deleteRowsAll, deleteRows)
 	}
 
-	err = udc.batchRows(kvwriter, nil, nil, deleteRowsAll)
-	if err == nil {
-		udc.m.Lock()
-		udc.docCount--
-		udc.m.Unlock()
-	}
+	err = udc.batchRows(kvwriter, nil, nil, deleteRowsAll, 0, 1)
 	atomic.AddUint64(&udc.stats.indexTime, uint64(time.Since(indexStart)))
 	if err == nil {
 		atomic.AddUint64(&udc.stats.deletes, 1)
@@ -939,7 +941,7 @@ func (udc *UpsideDownCouch) Batch(batch *index.Batch) (err error) {
 		return
 	}
 
-	err = udc.batchRows(kvwriter, addRowsAll, updateRowsAll, deleteRowsAll)
+	err = udc.batchRows(kvwriter, addRowsAll, updateRowsAll, deleteRowsAll, docsAdded, docsDeleted)
 	if err != nil {
 		_ = kvwriter.Close()
 		atomic.AddUint64(&udc.stats.errors, 1)
@@ -951,10 +953,6 @@ func (udc *UpsideDownCouch) Batch(batch *index.Batch) (err error) {
 	atomic.AddUint64(&udc.stats.indexTime, uint64(time.Since(indexStart)))
 
 	if err == nil {
-		udc.m.Lock()
-		udc.docCount += docsAdded
-		udc.docCount -= docsDeleted
-		udc.m.Unlock()
 		atomic.AddUint64(&udc.stats.updates, numUpdates)
 		atomic.AddUint64(&udc.stats.deletes, docsDeleted)
 		atomic.AddUint64(&udc.stats.batches, 1)
@@ -1008,12 +1006,13 @@ func (udc *UpsideDownCouch) DeleteInternal(key []byte) (err error) {
 }
 
 func (udc *UpsideDownCouch) Reader() (index.IndexReader, error) {
+	// the store snapshot and the doc count are taken under one lock (see batchRows)
+	udc.m.RLock()
+	defer udc.m.RUnlock()
 	kvr, err := udc.store.Reader()
 	if err != nil {
 		return nil, fmt.Errorf("error opening store reader: %v", err)
 	}
-	udc.m.RLock()
-	defer udc.m.RUnlock()
 	return &IndexReader{
 		index:    udc,
 		kvreader: kvr,
